@@ -11,7 +11,7 @@ instructions than the oracle is the skipped-instruction witness.
 from __future__ import annotations
 import hashlib
 
-from .. import env
+from .. import env, instr
 from ..gen import auth
 from ..ref import isa, sigmsg
 
@@ -321,7 +321,11 @@ def judge_traced(ctx, case, verdict, exc):
     installed by the caller)."""
     n = len(case['scripts'])
     reset_trace()
-    v2, e2 = real(case)
+    mon = instr.Monitor()
+    with instr.injected(mon):
+        v2, e2 = real(case)
+    ctx.count('monitor.stack_appends', mon.appends)
+    ctx.max('monitor.max_stack_len', mon.max_stack_len)
     ev_real = per_script(T.events, n)
     tops_real = list(T.tops)
     def_problems = list(T.problems)
@@ -337,6 +341,14 @@ def judge_traced(ctx, case, verdict, exc):
                       'defined itself was not the one its CALL executed '
                       '(instructions of the script skipped): '
                       + def_problems[0], case)
+        return
+    stack_problems = [p for p in mon.problems if p[0].startswith('stack-')]
+    if stack_problems:
+        ctx.violation('auth-stack-limit-bypassed', 'an instruction that had '
+                      'to raise on the shared stack (limit of items / item '
+                      'size, bytes only) stored its result without raising: '
+                      + stack_problems[0][1], case, 'the script raises',
+                      stack_problems[0][0])
         return
     if exc is not None:
         ctx.violation('auth-raises', 'run_auth_scripts raised '
